@@ -36,6 +36,20 @@ prop("C18", True, "E6 codec",
      "Trusted: the bech32 crate as reference encoder. Lower-case prefixes only; insertions/deletions/'1'-substitutions/all-uppercase forms are observed, not judged.",
      "DESIGN.md section 5 C18")
 
+STK_NOTE = "Trusted: exact-rational model (num-bigint), raw ledger/staking JSON decoding. Whole-second non-decreasing block times, parameters fixed at setup, amounts <= 10^6, valid undelegate/redelegate required to succeed only on never-slashed validators, zero-amount and same-validator redelegations unspecified (either outcome, no visible effect)."
+prop("C14", True, "E4 staking",
+     "runtime monitor: exact-rational reference model + FIFO unbonding model + panic monitor + structural monitor over the raw staking namespace, compared after every step of generated histories",
+     "Held on every history observed: after every step of generated staking histories (3 delegators incl. a contract, 2-3 validators) accept/reject, all delegations, AllDelegations and every bank balance incl. the pool equal the model; matured unbondings are paid in full (less per-entry floored slashes) by the first block update at/after maturity and not before; rejected operations leave storage byte-identical; no panic and no failing block update occurred.",
+     STK_NOTE, "DESIGN.md section 5 C14")
+prop("C15", True, "E4 staking",
+     "runtime monitor: exact-rational accrual bounds per delegation period, before/after observation around every withdrawal, split-time twin instance compared step by step",
+     "Held on every history observed: for every delegation period withdrawn + pending stays within [X_lo - (withdrawals+1), X_hi] (exact rationals, eps 1e-9); a successful withdrawal pays exactly the pending amount shown before to the current withdraw address, resets pending, mints nothing else and leaves all other delegators' pending rewards unchanged; the pending query equals the floor of credited + uncredited reward in the raw state; a twin instance that splits every time advance into 1-5 block updates agrees on delegations, exact pending values (1e-9) and balances.",
+     STK_NOTE, "DESIGN.md section 5 C15")
+prop("C16", True, "E4 staking",
+     "runtime monitor: two-sided scaling interval per delegation and per pending unbonding around every slash; unchanged-elsewhere observation; later payouts against per-entry iterated floor",
+     "Held on every history observed: after every slash (fractions 0..1, >1, unknown validator; repeated) each delegation to the slashed validator lies in [floor((1-p)*shown), floor((1-p)*exact)] and never increases, p=1 removes all, delegations to other validators, all bank balances and pending rewards of delegations that stay positive are unchanged, rejected slashes leave storage byte-identical, and pending unbondings are later paid with exactly the per-entry floored amounts.",
+     STK_NOTE, "DESIGN.md section 5 C16")
+
 for pid in ["C01","C02","C03","C04","C05","C08","C09","C10","C11","C12","C13","C14","C15","C16","C17","C18","C19","C20"]:
     if pid not in P:
         prop(pid, False, "", "", "", "", "", reason=PENDING)
